@@ -467,7 +467,7 @@ pub fn io_loop_exit() {
 }
 
 pub fn position_loaded(board: &BoardState, draw_table: &DrawTable) {
-    let mut entries: Vec<(u64, u8)> = draw_table.table.iter().map(|(k, v)| (*k, *v)).collect();
+    let mut entries: Vec<(u64, u32)> = draw_table.table.iter().map(|(k, v)| (*k, (*v).into())).collect();
     entries.sort_unstable();
     let table: Vec<String> = entries
         .iter()
